@@ -16,6 +16,7 @@ package gocql
 import (
 	"bufio"
 	"bytes"
+	"encoding/binary"
 	"encoding/hex"
 	"encoding/json"
 	"fmt"
@@ -111,7 +112,50 @@ type vfC12NUint16 uint16
 type vfC12NUint32 uint32
 type vfC12NUint64 uint64
 
+// User-defined types that marshal themselves (gocql.Marshaler / Unmarshaler): an int32 written as the 4-byte CQL int
+// with encoding/binary.  vfC12UMV has a value-receiver MarshalCQL, vfC12UMP a pointer-receiver one; the methods are
+// written the way user code is (no nil-receiver handling): a nil *T must never reach them, it is CQL null.
+type vfC12UMV struct{ X int32 }
+type vfC12UMP struct{ X int32 }
+
+func (m vfC12UMV) MarshalCQL(info TypeInfo) ([]byte, error) {
+	b := make([]byte, 4)
+	binary.BigEndian.PutUint32(b, uint32(m.X))
+	return b, nil
+}
+
+func (m *vfC12UMV) UnmarshalCQL(info TypeInfo, data []byte) error {
+	if len(data) == 0 {
+		m.X = 0
+		return nil
+	}
+	if len(data) != 4 {
+		return fmt.Errorf("vfC12UMV: %d bytes", len(data))
+	}
+	m.X = int32(binary.BigEndian.Uint32(data))
+	return nil
+}
+
+func (m *vfC12UMP) MarshalCQL(info TypeInfo) ([]byte, error) {
+	b := make([]byte, 4)
+	binary.BigEndian.PutUint32(b, uint32(m.X))
+	return b, nil
+}
+
+func (m *vfC12UMP) UnmarshalCQL(info TypeInfo, data []byte) error {
+	if len(data) == 0 {
+		m.X = 0
+		return nil
+	}
+	if len(data) != 4 {
+		return fmt.Errorf("vfC12UMP: %d bytes", len(data))
+	}
+	m.X = int32(binary.BigEndian.Uint32(data))
+	return nil
+}
+
 var vfC12LeafTypes = map[string]reflect.Type{
+	"um_v": reflect.TypeOf(vfC12UMV{}), "um_p": reflect.TypeOf(vfC12UMP{}),
 	"int": reflect.TypeOf(int(0)), "int8": reflect.TypeOf(int8(0)), "int16": reflect.TypeOf(int16(0)),
 	"int32": reflect.TypeOf(int32(0)), "int64": reflect.TypeOf(int64(0)),
 	"uint": reflect.TypeOf(uint(0)), "uint8": reflect.TypeOf(uint8(0)), "uint16": reflect.TypeOf(uint16(0)),
@@ -523,6 +567,17 @@ func vfC12Build(k *vfC12Kind, gv *vfC12Val, t *vfC12Type) (reflect.Value, error)
 		}
 		return reflect.ValueOf(time.UnixMilli(x.Int64()).In(vfC12Zones[k.G])), nil
 	}
+	if k.G == "um_v" || k.G == "um_p" {
+		x, err := vfC12Big(gv)
+		if err != nil {
+			return reflect.Value{}, err
+		}
+		if !x.IsInt64() || int64(int32(x.Int64())) != x.Int64() {
+			return reflect.Value{}, fmt.Errorf("harness: %s does not fit %s", x, k.G)
+		}
+		v.Field(0).SetInt(x.Int64())
+		return v, nil
+	}
 	switch typ.Kind() {
 	case reflect.Int, reflect.Int8, reflect.Int16, reflect.Int32, reflect.Int64:
 		x, err := vfC12Big(gv)
@@ -687,6 +742,8 @@ var (
 	vfC12TDec  = reflect.TypeOf(inf.Dec{})
 	vfC12TDur  = reflect.TypeOf(Duration{})
 	vfC12TIP   = reflect.TypeOf(net.IP(nil))
+	vfC12TUMV  = reflect.TypeOf(vfC12UMV{})
+	vfC12TUMP  = reflect.TypeOf(vfC12UMP{})
 )
 
 func vfC12ElemType(t *vfC12Type, i int) *vfC12Type {
@@ -725,6 +782,8 @@ func vfC12Dump(v reflect.Value, t *vfC12Type) vfC12Obj {
 		d := v.Interface().(Duration)
 		return vfC12Obj{"k": "dur", "mo": vfC12DumpBig(big.NewInt(int64(d.Months))), "d": vfC12DumpBig(big.NewInt(int64(d.Days))),
 			"ns": vfC12DumpBig(big.NewInt(d.Nanoseconds))}
+	case vfC12TUMV, vfC12TUMP:
+		return vfC12DumpBig(big.NewInt(v.Field(0).Int()))
 	case vfC12TIP:
 		ip := v.Interface().(net.IP)
 		if v4 := ip.To4(); v4 != nil {
@@ -1488,7 +1547,7 @@ func (g *vfC12Gen) bytes(n int) []int {
 	return b
 }
 
-var vfC12IntKindBits = map[string]int{"int": 64, "int8": 8, "int16": 16, "int32": 32, "int64": 64, "uint": -64, "uint8": -8, "uint16": -16,
+var vfC12IntKindBits = map[string]int{"um_v": 32, "um_p": 32, "int": 64, "int8": 8, "int16": 16, "int32": 32, "int64": 64, "uint": -64, "uint8": -8, "uint16": -16,
 	"uint32": -32, "uint64": -64, "nint": 64, "nint8": 8, "nint16": 16, "nint32": 32, "nint64": 64, "nuint": -64, "nuint8": -8,
 	"nuint16": -16, "nuint32": -32, "nuint64": -64}
 
@@ -1521,7 +1580,7 @@ var vfC12AllIntKinds = []string{"int", "int8", "int16", "int32", "int64", "uint"
 func (g *vfC12Gen) pick(xs []string) string { return xs[g.r.Intn(len(xs))] }
 
 var vfC12ScalarKinds = map[string][]string{
-	"tinyint": vfC12AllIntKinds, "smallint": vfC12AllIntKinds, "int": vfC12AllIntKinds, "bigint": vfC12AllIntKinds,
+	"tinyint": vfC12AllIntKinds, "smallint": vfC12AllIntKinds, "int": append(append([]string{}, vfC12AllIntKinds...), "um_v", "um_v"), "bigint": vfC12AllIntKinds,
 	"counter": vfC12AllIntKinds, "varint": vfC12AllIntKinds,
 	"text": {"string", "bytes"}, "ascii": {"string", "bytes"}, "varchar": {"string", "bytes"}, "blob": {"string", "bytes"},
 	"boolean": {"bool"}, "float": {"float32"}, "double": {"float64"}, "decimal": {"dec"},
